@@ -99,6 +99,15 @@ func init() {
 		"bytes.TrimSpace":       inTrimSpace,
 		"strings.TrimSpace":     inTrimSpace,
 
+		// process environment: fixed, documented values
+		"runtime.GOROOT": func(e *Exec, fn *ssa.Function, a []Value) Value { return e.constString("/goroot") },
+		"os.Getenv":      func(e *Exec, fn *ssa.Function, a []Value) Value { return e.constString("") },
+		"log.Printf":     func(e *Exec, fn *ssa.Function, a []Value) Value { return nil },
+		repoStack + "getGOPATHs": func(e *Exec, fn *ssa.Function, a []Value) Value {
+			sl := e.newSlice(types.Typ[types.String], 1, 1, "getGOPATHs")
+			sl.Arr.Elems[0] = e.constString("/gopath")
+			return sl
+		},
 		// the file system is an arbitrary oracle: any answer, per probe
 		repoStack + "isFile": func(e *Exec, fn *ssa.Function, a []Value) Value {
 			if e.files == nil {
